@@ -2,6 +2,8 @@ package hvxwire
 
 import (
 	"fmt"
+	"sort"
+	"strconv"
 	"strings"
 
 	"verifharness/hv"
@@ -40,6 +42,33 @@ func RunEnc(f *Format, v Value) (o EncObs) {
 	if p {
 		o = EncObs{Code: PANIC, Msg: msg}
 	}
+	return
+}
+
+// RunDecAlloc is RunDec plus the bytes the decoder call allocated (setup excluded when the
+// format has a Prep).
+func RunDecAlloc(f *Format, b []byte) (o DecObs, alloc uint64) {
+	call := func() (Value, int, bool) { return f.Dec(b) }
+	if f.Prep != nil {
+		var prepared func() (Value, int, bool)
+		if p, msg := hv.Catch(func() { prepared = f.Prep(b) }); p {
+			return DecObs{V: f.Zero(), Code: PANIC, Msg: "setup: " + msg}, 0
+		}
+		call = prepared
+	}
+	alloc = MeasureAlloc(func() {
+		p, msg := hv.Catch(func() {
+			v, rem, ok := call()
+			if ok {
+				o = DecObs{V: v, Rem: rem, Code: OK}
+			} else {
+				o = DecObs{V: f.Zero(), Rem: rem, Code: ERR}
+			}
+		})
+		if p {
+			o = DecObs{V: f.Zero(), Code: PANIC, Msg: msg}
+		}
+	})
 	return
 }
 
@@ -104,7 +133,12 @@ func Mutations(r *hv.Rand, b []byte, hot []int, budget int) [][]byte {
 	for k := 0; k < 6 && len(b) > 0; k++ {
 		pos[r.Intn(len(b))] = true
 	}
+	var order []int
 	for p := range pos {
+		order = append(order, p)
+	}
+	sort.Ints(order) // map iteration order must not decide which random draw goes where
+	for _, p := range order {
 		for k := 0; k < 3; k++ {
 			x := cp()
 			nb := hv.Pick(r, boundaryBytes)
@@ -123,7 +157,6 @@ func Mutations(r *hv.Rand, b []byte, hot []int, budget int) [][]byte {
 	// junk appended (decoders must leave it unread)
 	add(append(cp(), r.Bytes(1+r.Intn(5))...))
 	add(append(cp(), b...))
-	// deterministic order is lost by the map: sort by content for reproducibility
 	sortBytes(out)
 	// sample down to the budget
 	for len(out) > budget {
@@ -217,22 +250,40 @@ func PatternD(n int, start, delta byte) []byte {
 	return b
 }
 
-// CoqBytes prints a byte string as a Coq term of type bytes: hex literals of bounded size, and
-// (pat n start delta) for long constant-delta runs.
+// ib prints bytes as (ib n [i0; i1; ...]%uint63) of Corr/CorrBytes.v: 7 bytes per primitive
+// 63-bit integer, little endian; parsed natively by Coq (string literals are interpreted by
+// reduction and cost ~0.1 ms per character).
+func ib(b []byte) string {
+	var sb strings.Builder
+	sb.WriteString("(ib ")
+	sb.WriteString(strconv.Itoa(len(b)))
+	sb.WriteString(" [")
+	for i := 0; i < len(b); i += 7 {
+		var v uint64
+		for j := 0; j < 7 && i+j < len(b); j++ {
+			v |= uint64(b[i+j]) << (8 * uint(j))
+		}
+		if i > 0 {
+			sb.WriteString(";")
+		}
+		sb.WriteString(strconv.FormatUint(v, 10))
+	}
+	sb.WriteString("]%uint63)")
+	return sb.String()
+}
+
+// CoqBytes prints a byte string as a Coq term of type bytes: (ib ..) literals, and
+// (pat n start delta) for constant-delta runs of 16 bytes and more.
 func CoqBytes(b []byte) string {
 	if len(b) < 16 {
-		return hv.Hex(b)
+		return ib(b)
 	}
 	var parts []string
 	var lit []byte
 	flush := func() {
-		for len(lit) > 0 {
-			k := len(lit)
-			if k > 2048 {
-				k = 2048
-			}
-			parts = append(parts, hv.Hex(lit[:k]))
-			lit = lit[k:]
+		if len(lit) > 0 {
+			parts = append(parts, ib(lit))
+			lit = nil
 		}
 	}
 	for i := 0; i < len(b); {
